@@ -23,6 +23,10 @@ import (
 	"sync"
 	"sync/atomic"
 
+	"github.com/wader/fq/pkg/bitio"
+	"github.com/wader/fq/pkg/decode"
+	"github.com/wader/fq/pkg/scalar"
+
 	"verif/ev"
 	"verif/fqx"
 	"verif/gen"
@@ -207,6 +211,43 @@ func c18Jobs(max int) []c18Job {
 	return jobs
 }
 
+// c18TreeDigest: names, ranges, value kinds, actual and symbolic values and errors of a whole decode tree
+func c18TreeDigest(res decodeResult) string {
+	h := sha256.New()
+	if res.Panic != nil {
+		fmt.Fprintf(h, "PANIC %v\n", res.Panic.Value)
+	}
+	if res.Err != nil {
+		fmt.Fprintf(h, "ERR %v\n", res.Err)
+	}
+	n := 0
+	if res.V != nil {
+		_ = res.V.WalkPreOrder(func(v *decode.Value, _ *decode.Value, depth int, _ int) error {
+			n++
+			fmt.Fprintf(h, "%d|%s|%d|%d|%T|%v|", depth, v.Name, v.Range.Start, v.Range.Len, v.V, v.Err != nil)
+			if sc, ok := v.V.(scalar.Scalarable); ok {
+				for _, x := range []any{sc.ScalarActual(), sc.ScalarSym()} {
+					switch xx := x.(type) {
+					case nil, bool, int, int64, uint64, float64, float32, string, []byte:
+						fmt.Fprintf(h, "%v|", xx)
+					case fmt.Stringer: // *big.Int, big.Float ...
+						if _, isBuf := x.(bitio.ReaderAtSeeker); isBuf {
+							fmt.Fprintf(h, "%T|", x)
+						} else {
+							fmt.Fprintf(h, "%s|", xx.String())
+						}
+					default: // readers and other reference types: the type only (their text shows addresses)
+						fmt.Fprintf(h, "%T|", x)
+					}
+				}
+			}
+			h.Write([]byte{'\n'})
+			return nil
+		})
+	}
+	return fmt.Sprintf("%x/%d", h.Sum(nil)[:8], n)
+}
+
 func c18RunJob(j c18Job) string {
 	o := vos.New(j.Args...)
 	o.Files["input"] = j.Data
@@ -221,7 +262,10 @@ func c18RunJob(j c18Job) string {
 type c18Out struct {
 	Mode    string            `json:"mode"`
 	Outputs map[string]string `json:"outputs"` // job index (+ "#n" for repeats) -> output
-	Pairs   int64             `json:"overlapping_pairs"`
+	// Digests: cold-start rounds at the decode API: job index -> digests of the trees decoded by the G goroutines
+	// at the same moment, followed by the digest of one more (warm, sequential) decode in the same process
+	Digests map[string][]string `json:"digests,omitempty"`
+	Pairs   int64               `json:"overlapping_pairs"`
 	Runs    int64             `json:"runs"`
 }
 
@@ -308,28 +352,35 @@ func c18Child(mode string, outPath string, nJobs int) {
 			}
 		}
 		var mu sync.Mutex
+		out.Digests = map[string][]string{}
 		for r := 0; r < 12; r++ {
 			idx := int(seed)*12 + r
 			if idx >= len(good) {
 				break
 			}
 			k := good[idx]
+			format := jobs[k].Args[1]
 			var wg sync.WaitGroup
 			start := make(chan struct{})
+			digs := make([]string, G)
 			for g := 0; g < G; g++ {
 				wg.Add(1)
 				go func(g int) {
 					defer wg.Done()
+					data := append([]byte(nil), jobs[k].Data...)
 					<-start
-					o := c18RunJob(jobs[k])
-					mu.Lock()
-					out.Outputs[fmt.Sprintf("%d#c%d", k, g)] = o
-					mu.Unlock()
+					// straight into decode.Decode (group lookup included): microseconds after the barrier every
+					// goroutine is inside the decoder, where interp.Main would spread them over ~100 ms of jq set-up
+					digs[g] = c18TreeDigest(decodeDirect(data, format, false))
 					atomic.AddInt64(&out.Runs, 1)
 				}(g)
 			}
 			close(start)
 			wg.Wait()
+			digs = append(digs, c18TreeDigest(decodeDirect(append([]byte(nil), jobs[k].Data...), format, false)))
+			mu.Lock()
+			out.Digests[fmt.Sprint(k)] = digs
+			mu.Unlock()
 			out.Pairs += int64(G * (G - 1) / 2)
 		}
 	case "conc":
@@ -399,7 +450,7 @@ func c18Main(args []string) {
 		os.Exit(0)
 	}
 	run := ev.NewRun("C18")
-	run.Rule = "jobs = (corpus sample or failing foreign-format decode or option-carrying decode, CLI arguments dv / tovalue / tobytes|tohex / dd with options) run through interp.Main on the shared DefaultRegistry; golden process = every job once in natural order; history processes = PRNG permutations with triple repeats, and a burst history (every truncated decode 12x in a row, then every job once); cold-start processes = for each good job all G goroutines run it at the same moment in a fresh process (12 jobs per process); concurrency processes = G goroutines x 6 jobs with a start barrier, GOMAXPROCS in {1,2,16}, each in a fresh process; every output compared byte for byte with the golden; race detector reports are violations. non-trivial = a run of a job whose predecessor/neighbour differs from the golden order; distinct = (job, mode, position)"
+	run.Rule = "jobs = (corpus sample or failing foreign-format decode or option-carrying decode, CLI arguments dv / tovalue / tobytes|tohex / dd with options) run through interp.Main on the shared DefaultRegistry; golden process = every job once in natural order; history processes = PRNG permutations with triple repeats, and a burst history (every truncated decode 12x in a row, then every job once); cold-start processes = for each good job G goroutines enter decode.Decode for it at the same moment in a fresh process (12 jobs per process), trees compared by digest with a later sequential decode; concurrency processes = G goroutines x 6 jobs with a start barrier, GOMAXPROCS in {1,2,16}, each in a fresh process; every output compared byte for byte with the golden; race detector reports are violations. non-trivial = a run of a job whose predecessor/neighbour differs from the golden order; distinct = (job, mode, position)"
 	run.Assumptions = []string{"binary built with -race", "goldens come from the same binary in a fresh process (job list is independent of VERIF_SEED)"}
 	jobs := c18Jobs(nJobs)
 	dir, err := os.MkdirTemp("", "verif-c18-")
@@ -529,6 +580,19 @@ func c18Main(args []string) {
 			continue
 		}
 		run.Count("runs:"+kind, o.Runs)
+		for k, digs := range o.Digests {
+			var idx int
+			fmt.Sscan(k, &idx)
+			run.Eval(int64(len(digs)))
+			run.Count("cold-start:trees-compared", int64(len(digs)))
+			run.Distinct(c.mode + "|cold|" + k)
+			for g, dg := range digs {
+				if dg != digs[len(digs)-1] {
+					run.Violation("output-differs:cold-start:"+c18ArgClass(jobs[idx]), fmt.Sprintf("job [%s] in process %s: the tree decoded by goroutine %d of a cold concurrent start (digest %s) differs from a later sequential decode in the same process (digest %s)", jobs[idx].Name, c.mode, g, dg, digs[len(digs)-1]), map[string]any{"mode": c.mode, "job": jobs[idx].Name})
+					break
+				}
+			}
+		}
 		run.Count("overlapping-job-pairs", o.Pairs)
 		for k, v := range o.Outputs {
 			var idx int
